@@ -1141,12 +1141,28 @@ Lemma isDone_iff s n : isDone s n = true <-> recomputedAt (nd s n) = stabNum s.
 Proof. unfold isDone. apply Z.eqb_eq. Qed.
 
 Lemma stamps_node_false s n : stamps_node s false n = true ->
-  0 <= changedAt (nd s n) <= recomputedAt (nd s n) /\ recomputedAt (nd s n) <= stabNum s.
-Proof. unfold stamps_node. rewrite !andb_true_iff. lia. Qed.
+  0 <= changedAt (nd s n) <= stabNum s /\ 0 <= recomputedAt (nd s n) <= stabNum s /\
+  (changedAt (nd s n) = stabNum s -> recomputedAt (nd s n) = stabNum s).
+Proof.
+  unfold stamps_node. rewrite !andb_true_iff, !Z.leb_le. intros [[H1 H2] [[H3 H4] H5]].
+  split; [lia|]. split; [lia|]. intros E. rewrite E, Z.eqb_refl in H5. simpl in H5. apply Z.eqb_eq in H5. exact H5.
+Qed.
+
+Lemma stamps_node_false_intro s n :
+  0 <= changedAt (nd s n) <= stabNum s -> 0 <= recomputedAt (nd s n) <= stabNum s ->
+  (changedAt (nd s n) = stabNum s -> recomputedAt (nd s n) = stabNum s) -> stamps_node s false n = true.
+Proof.
+  intros H1 H2 H3. unfold stamps_node. rewrite !andb_true_iff, !Z.leb_le. split; [lia|]. split; [lia|].
+  destruct (Z.eqb_spec (changedAt (nd s n)) (stabNum s)) as [E|E]; [|reflexivity]. simpl. apply Z.eqb_eq, H3, E.
+Qed.
 
 Lemma stamps_node_true s n : stamps_node s true n = true ->
-  0 <= changedAt (nd s n) <= recomputedAt (nd s n) /\ recomputedAt (nd s n) < stabNum s.
-Proof. unfold stamps_node. rewrite !andb_true_iff. lia. Qed.
+  0 <= changedAt (nd s n) < stabNum s /\ 0 <= recomputedAt (nd s n) < stabNum s.
+Proof. unfold stamps_node. rewrite !andb_true_iff, !Z.leb_le, !Z.ltb_lt. lia. Qed.
+
+Lemma stamps_node_true_intro s n :
+  0 <= changedAt (nd s n) < stabNum s -> 0 <= recomputedAt (nd s n) < stabNum s -> stamps_node s true n = true.
+Proof. intros. unfold stamps_node. rewrite !andb_true_iff, !Z.leb_le, !Z.ltb_lt. lia. Qed.
 
 Lemma stepPost_sframe s m s' imm : stepPost s m s' imm -> sframe s s'.
 Proof.
@@ -1190,8 +1206,16 @@ Section Step.
   Local Lemma Hmnd : isDone s m = false.
   Proof. apply (li_B _ _ _ _ L m m HmW). apply rtc_refl. Qed.
 
-  Local Lemma Hst n : 0 <= changedAt (nd s n) <= recomputedAt (nd s n) /\ recomputedAt (nd s n) <= k.
+  Local Lemma Hst n : 0 <= changedAt (nd s n) <= k /\ 0 <= recomputedAt (nd s n) <= k /\
+                      (changedAt (nd s n) = k -> recomputedAt (nd s n) = k).
   Proof. apply stamps_node_false, (li_stamps _ _ _ _ L). Qed.
+
+  (* a node that has not run in this pass has not changed in it *)
+  Local Lemma Hm_clt : changedAt (nd s m) < k.
+  Proof.
+    pose proof (Hst m) as (H1 & H2 & H3). pose proof Hmnd as Hd. unfold isDone in Hd. apply Z.eqb_neq in Hd. fold k in Hd.
+    destruct (Z.eq_dec (changedAt (nd s m)) k) as [E|E]; [exfalso; apply Hd, H3, E|lia].
+  Qed.
 
   Local Lemma Hm_lt : recomputedAt (nd s m) < k.
   Proof.
@@ -2014,7 +2038,8 @@ Section End.
   Local Lemma notW n : inW sL None n = false.
   Proof. apply inW_false_iff; [exact IL|]. rewrite (pe_empty _ _ _ _ E). split; [apply not_elem_of_nil|discriminate]. Qed.
 
-  Local Lemma stL n : 0 <= changedAt (nd sL n) <= recomputedAt (nd sL n) /\ recomputedAt (nd sL n) <= k.
+  Local Lemma stL n : 0 <= changedAt (nd sL n) <= k /\ 0 <= recomputedAt (nd sL n) <= k /\
+                      (changedAt (nd sL n) = k -> recomputedAt (nd sL n) = k).
   Proof. rewrite <- kL. apply stamps_node_false, (li_stamps _ _ _ _ LL). Qed.
 
   (* with nothing owed, a registered node that has not run is not stale *)
@@ -2468,7 +2493,7 @@ Proof.
   constructor.
   - exact HBF.
   - intros n. destruct (decide (has s n)) as [Hn|Hn]; [apply (forallb_elem _ _ _ H1 (Hall n Hn))|].
-    unfold stamps_node. rewrite (not_has_nd s n Hn). simpl. apply Z.ltb_lt. lia.
+    apply stamps_node_true_intro; rewrite (not_has_nd s n Hn); simpl; lia.
   - intros n Hg. destruct (decide (has s n)) as [Hn|Hn]; [|rewrite (not_has_nd s n Hn); auto].
     pose proof (forallb_elem _ _ _ H4 (Hall n Hn)) as Hb. cbv beta in Hb. rewrite Hg in Hb. simpl in Hb.
     apply andb_true_iff in Hb as [Ha Hb]. apply Z.eqb_eq in Ha, Hb. auto.
@@ -2626,7 +2651,7 @@ Proof.
   - intros n. unfold stamps_node. rewrite Hk. destruct (inGraph (nd s' n)) eqn:Eg.
     + destruct (St n Eg) as [-> ->]. apply (vi_stamps _ V n).
     + destruct (V0 n Eg) as [-> ->]. pose proof (stamps_node_true _ _ (vi_stamps _ V 0%nat)).
-      simpl. apply Z.ltb_lt. lia.
+      simpl. rewrite !andb_true_iff, !Z.ltb_lt. lia.
   - exact V0.
   - exact R4.
   - intros n Hg Hq Hgd. destruct (R3 n Hg Hq) as [Ht|(Hg0 & Hq0 & Hd)]; [apply trivial_consistent, Ht|].
